@@ -16,6 +16,7 @@ import XlModel.Lemmas.DvDelete
 import XlModel.DvRecord
 import XlModel.CfRule
 import XlModel.Lemmas.XmlAttr
+import XlModel.Lemmas.Margins
 
 namespace XlModel.Props.C18
 open XlModel XlModel.Settings
@@ -1195,5 +1196,75 @@ theorem xml_attr_roundtrip_example :
     unmarshal tags (marshal (tags.zip vals)) == (tags.zip vals).map (fun p => (p.1.go, p.2)) := by decide
 
 end XmlAttrThms
+
+/-! ## page margins: the hand-written field copy of SetPageMargins / GetPageMargins -/
+
+section MarginThms
+open XlModel.Margins
+
+/-- what justifies the positional model: the reflect loop walks exactly the *float64 fields of the
+option struct (loop bound = their number, they come first), every one of them names a float64 field
+of `xlsxPageMargins` and no other field exists there, the getter copies each name to the same name,
+the two *bool fields go to and come from the same `xlsxPrintOptions` fields, and the defaults the
+setter fills in are the defaults the getter reports (name by name) -/
+theorem margins_facts_pinned :
+    Facts.C18.marginLoopBound = Facts.C18.marginOptFloatFields.length ∧
+    Facts.C18.marginOptFloatFields.Nodup ∧
+    Facts.C18.marginOptFloatFields.all (Facts.C18.marginPartFloatFields.contains ·) = true ∧
+    Facts.C18.marginPartFloatFields.all (Facts.C18.marginOptFloatFields.contains ·) = true ∧
+    Facts.C18.marginGetCopies = Facts.C18.marginOptFloatFields.map (fun n => (n, n)) ∧
+    Facts.C18.marginOptOtherFields = ["Horizontally:*bool", "Vertically:*bool"] ∧
+    Facts.C18.marginPrintSet = Facts.C18.marginPrintGet ∧ Facts.C18.marginPrintSet.length = 2 ∧
+    defaultsOf Facts.C18.marginSetDefaults = defaultsOf Facts.C18.marginGetDefaults ∧
+    (defaultsOf Facts.C18.marginGetDefaults).map List.length = some Facts.C18.marginLoopBound := by decide
+
+/-- `margins_set_get_roundtrip` (full, any value type, any previous state): after SetPageMargins
+every margin given reads back as given and every margin not given reads back as before the call
+(fresh sheet: as the documented default — the `margins:*` regression); the centring flags read back
+as given, a flag not given reads as before, or as false when the call created the print options -/
+theorem margins_set_get {α : Type} (d : List α) (st : St α) (o : Opts α)
+    (hl : o.m.length = d.length) (hs : ∀ r, st.pm = some r → r.length = d.length) :
+    getM d (setM d st o) =
+      ⟨List.zipWith (fun a b => a <|> b) o.m (getM d st).m,
+       if o.h.isNone && o.v.isNone then (getM d st).h else some (o.h.getD ((getM d st).h.getD false)),
+       if o.h.isNone && o.v.isNone then (getM d st).v else some (o.v.getD ((getM d st).v.getD false))⟩ := by
+  have hlen : o.m.length = (st.pm.getD d).length := by
+    cases hp : st.pm with
+    | none => simpa using hl
+    | some r => simpa [hs r hp] using hl
+  have hm : (getM d (setM d st o)).m = List.zipWith (fun a b => a <|> b) o.m (getM d st).m := by
+    simp only [getM, setM]
+    cases hall : o.m.all Option.isNone
+    · simp only [Bool.false_eq_true, if_false, Option.getD_some]
+      exact merge_map_some o.m _ hlen
+    · simp only [if_true]
+      exact (zipWith_all_none o.m _ (by simpa using hlen) hall).symm
+  have hh : getM d (setM d st o) = ⟨(getM d (setM d st o)).m, (getM d (setM d st o)).h, (getM d (setM d st o)).v⟩ := rfl
+  rw [hh, hm]
+  rcases o with ⟨m, h, v⟩
+  rcases st with ⟨pm, po⟩
+  cases h <;> cases v <;> cases po <;> simp [getM, setM]
+
+/-- frame: the stored record keeps its length, so the hypothesis of `margins_set_get` is an invariant -/
+theorem margins_wellformed_preserved {α : Type} (d : List α) (st : St α) (o : Opts α)
+    (hs : ∀ r, st.pm = some r → r.length = d.length) :
+    ∀ r, (setM d st o).pm = some r → r.length = d.length := by
+  intro r hr
+  simp only [setM] at hr
+  split at hr
+  · exact hs r hr
+  · cases hr
+    rw [merge_length]
+    cases hp : st.pm with
+    | none => rfl
+    | some r' => simpa using hs r' hp
+
+/-- the `margins:*` regression (fixed by 5d10b59): `{Bottom: 1}` on a fresh sheet leaves the other five at their defaults -/
+theorem margins_fresh_example :
+    (defaultsOf Facts.C18.marginGetDefaults).map (fun d =>
+      (getM d (setM d ⟨none, none⟩ ⟨[some "1", none, none, none, none, none], none, some true⟩))) =
+      some ⟨[some "1", some "0.3", some "0.3", some "0.7", some "0.7", some "0.75"], some false, some true⟩ := by decide
+
+end MarginThms
 
 end XlModel.Props.C18
